@@ -476,6 +476,8 @@ fn record_scc_fl<F: Fl>(opts: &HashMap<String, String>) -> Value {
     let maxn: usize = opts.get("nodes").map(|s| s.parse().unwrap()).unwrap_or(12);
     let pad: usize = opts.get("pad").map(|s| s.parse().unwrap()).unwrap_or(maxn);
     let instances: usize = opts.get("instances").map(|s| s.parse().unwrap()).unwrap_or(3);
+    let extra: usize = opts.get("extra").map(|s| s.parse().unwrap()).unwrap_or(0);
+    let mut executions = 0usize;
     let path = opts.get("trace").expect("--trace");
     let mut f = std::io::BufWriter::new(std::fs::File::create(path).expect("create trace"));
     let mut rng = StdRng::seed_from_u64(seed ^ 0xabcdef);
@@ -497,13 +499,24 @@ fn record_scc_fl<F: Fl>(opts: &HashMap<String, String>) -> Value {
         i.resize(pad, vec![]);
         writeln!(f, "{}", json!({"ev": "graph", "out": o, "inn": i, "nval": vec![0; pad], "n": n})).unwrap();
         events += 1;
-        for _ in 0..instances {
+        // the first `instances` runs are all logged; `extra` further fresh containers (own hash
+        // state, own insertion order) are run too and logged only when their partition is one
+        // this graph has not shown yet (on correct code: never - the partition is unique)
+        let mut seen: HashSet<String> = HashSet::new();
+        for inst in 0..instances + extra {
             let mut order: Vec<K> = (1..=n as K).collect();
             for i in (1..order.len()).rev() {
                 order.swap(i, rng.gen_range(0..=i));
             }
+            executions += 1;
             let ev = match scc_instance::<F>(&st, &order) {
-                Ok(c) => json!({"ev": "scc", "rt": "comps", "comps": c, "insertion_order": order}),
+                Ok(c) => {
+                    let fresh = seen.insert(format!("{:?}", normalise(&c)));
+                    if inst >= instances && !fresh {
+                        continue;
+                    }
+                    json!({"ev": "scc", "rt": "comps", "comps": c, "insertion_order": order})
+                }
                 Err(e) => json!({"ev": "scc", "rt": "fail", "comps": [], "error": e, "insertion_order": order}),
             };
             writeln!(f, "{}", ev).unwrap();
@@ -511,7 +524,7 @@ fn record_scc_fl<F: Fl>(opts: &HashMap<String, String>) -> Value {
         }
     }
     f.flush().unwrap();
-    json!({"flavour": F::NAME, "events": events, "graphs": graphs})
+    json!({"flavour": F::NAME, "events": events, "graphs": graphs, "executions": executions})
 }
 
 // ---------------------------------------------------------------------------
